@@ -4,6 +4,7 @@ every output, canonicalised.
 
 request   dictx kind=mp4|asf|easymp4|easyid3 ops=<op>,<op>,…          (`ops=-` or no `ops`: empty sequence)
           dictx table=mp4atoms                    the model's copy of a table of /repo
+          dictx kind=filevc|fileape|fileid3 tags=0|1 init=<pairs> ops=…   a FileType over its tags (see fileKindOp)
   <op>    get:<k>  set:<k>:<v>  del:<k>  in:<k>  keys  values  items  len  clear
           pop:<k>  popd:<k>:<v>  popitem  upd[:<k>:<v>]…  setd:<k>:<v>  getd:<k>:<v>
           native  (Easy views only: the wrapped native tags, see the kind)
@@ -24,6 +25,7 @@ import MutagenModel.Model.DictMp4
 import MutagenModel.Model.DictAsf
 import MutagenModel.Model.DictEasyMp4
 import MutagenModel.Model.DictEasyId3
+import MutagenModel.Model.DictFile
 import MutagenModel.Model.Utf8
 import Driver.Util
 import Driver.Dict
@@ -212,7 +214,58 @@ def xTable (name : String) : Option String :=
       (fun a b => !(b < a))))
   | _ => none
 
-def dictxOp (a : Args) : String :=
+/-- initial Vorbis comment of a FLAC / Ogg file: `<k>:<atom>;…` in list order -/
+def decVcInit (s : String) : Option VC :=
+  if s == "-" || s == "" then some []
+  else (s.splitOn ";").mapM (fun (p : String) => match p.splitOn ":" with
+    | [k, a] => (decAtom a).map (fun x => (decKey k, x))
+    | _ => none)
+
+/-- initial APEv2 tag: `<k>:<v>;…` (values as stored: text `s…`, binary `b…`) -/
+def decApeInit (s : String) : Option CI :=
+  if s == "-" || s == "" then some CI.empty
+  else
+    let pairs : Option (List (Text × Val)) := (s.splitOn ";").mapM (fun (p : String) => match p.splitOn ":" with
+      | [k, v] => (decVal v).map (fun x => (decKey k, x))
+      | _ => none)
+    pairs.map (fun l => l.foldl (fun acc p => ciSet acc p.1 p.2) CI.empty)
+
+/-- initial ID3 tag: `<k>~<v>;…` -/
+def decId3Init (s : String) : Option (RefDict PKey PVal) :=
+  if s == "-" || s == "" then some []
+  else (s.splitOn ";").mapM (fun (p : String) => match p.splitOn "~" with
+    | [k, v] => match decPKey k, decPVal v with
+      | some k', some v' => some (k', v')
+      | _, _ => none
+    | _ => none)
+
+/-- kinds `filevc` / `fileape` (operations and outputs in the language of the command `dict`) and
+`fileid3` (language of `dictx`): `FileType` over the tag store, `tags=0` = `tags is None`,
+`init=` the loaded tags -/
+def fileKindOp (a : Args) : Option String :=
+  let opsStr := a.str "ops" "-"
+  let toks := if opsStr == "-" || opsStr == "" then [] else opsStr.splitOn ","
+  let some1 := a.nat "tags" 1 == 1
+  let fin (outs : List String) := "ok out=" ++ (if outs.isEmpty then "-" else "|".intercalate outs)
+  match a.str "kind" with
+  | "filevc" =>
+    match toks.mapM decOp, decVcInit (a.str "init" "-") with
+    | some ops, some s0 =>
+      some (fin (runEnc (fileStep vcImpl (.ok [])) ops (if some1 then some s0 else none)))
+    | _, _ => some "bad-op"
+  | "fileape" =>
+    match toks.mapM decOp, decApeInit (a.str "init" "-") with
+    | some ops, some s0 =>
+      some (fin (runEnc (fileStep apeImpl (.ok CI.empty)) ops (if some1 then some s0 else none)))
+    | _, _ => some "bad-op"
+  | "fileid3" =>
+    match toks.mapM decXOp, decId3Init (a.str "init" "-") with
+    | some ops, some s0 =>
+      some (fin (xRun (fileStep id3TagImpl (.ok [])) (fun _ => "") ops (if some1 then some s0 else none)))
+    | _, _ => some "bad-op"
+  | _ => none
+
+def dictxOpMain (a : Args) : String :=
   if a.has "table" then
     match xTable (a.str "table") with
     | some t => "ok table=" ++ t
@@ -233,5 +286,10 @@ def dictxOp (a : Args) : String :=
     match outs? with
     | none => "bad-op"
     | some outs => "ok out=" ++ (if outs.isEmpty then "-" else "|".intercalate outs)
+
+def dictxOp (a : Args) : String :=
+  match fileKindOp a with
+  | some r => r
+  | none => dictxOpMain a
 
 end Driver
